@@ -7,6 +7,15 @@ ids = [p['id'] for p in props]
 
 # id -> (technique, level text, level note, design ref)
 CLAIMS = {
+ 'C03': ("bounded exhaustive enumeration of abstract configurations x every admissible JSON encoding x hcldec spec kinds, differential between the native and the JSON front end",
+         "525 abstract configurations (literal pool, block sequences for six label arities, nesting, kind clashes) crossed with the full JSON choice tree of json/spec.md (duplicate names vs arrays vs joined blocks, object vs array-of-objects with every cut at label levels and the body, one-element body arrays, '//' properties, empty arrays) and 42 hcldec specs covering every spec kind plus schema perturbations: Decode of the native rendering and of each JSON encoding must agree on error presence and value, and Content must give the same attributes and per-type block sequences; the reference reading (ref/refbody) decides which pairs are comparable, must both fail, differ by design, or are unspecified.",
+         "json/spec.md is silent on a null block value (Unspecified). Decorations are combined with all structures only in the thorough tier.",
+         "DESIGN.md section 4 C03, Appendix C"),
+ 'C04': ("bounded exhaustive enumeration of logical contents x Body implementations (native, JSON, merged, dynblock-expanded) x all schemas x all ordered schema splits, checking the schema-processing laws against a reference model",
+         "All sequences of <= 3 items over {a, b, x/0, x/1, x/2, y/0} realised as native, two JSON encodings, dynblock expansion (static, all-dynamic, first-run-dynamic) and every 2-file merge with every cut and syntax mix, x all schemas over {a,b,x,y} with <= 3 elements x every ordered 2-split incl. empty parts (649 splits per case): each matching item returned exactly once and in source order, exhaustive processing reports every unmatched item, partial processing leaves exactly the unmatched items in the remainder (observed through the complement schema and JustAttributes), two-step equals one-step, and the implementations agree for the same logical content.",
+         "Two recorded findings, both in dynblock's expanded body (JustAttributes on a remainder reports consumed blocks; a label-count mismatch diagnostic is repeated by every later call on the remainder).",
+         "DESIGN.md section 4 C04, Appendix C"),
+
  'C08': ("bounded exhaustive enumeration of hcldec spec trees x conforming and singly-perturbed bodies on the real decoder, checking type conformance against ImpliedType and the value against a reference decoder",
          "Every spec tree of depth <= 2 over all 18 spec kinds (depth 3 over a reduced alphabet; 4 363 specs) within the documented preconditions, x every conforming body over {absent, 2 values} per attribute and 0..3 blocks per type and every body within one edit (remove / replace a value by each of 8 pool values incl. null, unknown, dynamic and wrong types; extra attribute or block; remove or duplicate a block; add or drop a label; at any depth): Decode and PartialDecode never panic, the result type conforms to ImpliedType (equal where the implied type has no dynamic part), and an error-free result equals the reference decoder's value; ImpliedSchema / Variables / SourceRange never panic.",
          "The reference decoder (ref/refdec) is written from the hcldec documentation and never calls hcldec. Five recorded finding classes (three root causes pinned by the repository's own TestDecode cases 33, 37, 44).",
